@@ -49,6 +49,7 @@ type world struct {
 	g     *forwarder.Gtp5g
 	udp   *net.UDPConn
 	seq   [3]uint32
+	inbox [3][]*smf.Msg // what settle has collected so far
 }
 
 func cfgFor(blk *netx.Block, maxRetrans uint8) *factory.Config {
@@ -141,6 +142,25 @@ func (w *world) sendUDP(i int, b []byte) bool {
 		}
 	}
 	return false
+}
+
+// settle judges what the peers have received. Responses travel over the loopback and can lag behind the end of
+// an execution when the machine is loaded, so a verdict that finds something wrong is re-evaluated on everything
+// received by then after short waits (20 ms doubling, about 1.3 s in all) before it stands. Only a violating
+// execution pays for the wait.
+func (w *world) settle(f func(rep [3][]*smf.Msg) []vsched.Finding) []vsched.Finding {
+	var fs []vsched.Finding
+	for try := 0; try < 7; try++ {
+		more := w.replies()
+		for k := range w.inbox {
+			w.inbox[k] = append(w.inbox[k], more[k]...)
+		}
+		if fs = f(w.inbox); len(fs) == 0 {
+			break
+		}
+		time.Sleep(time.Duration(20<<try) * time.Millisecond)
+	}
+	return fs
 }
 
 // repliesWait drains the peers' sockets until peer i has at least n messages or a second has passed (loopback
